@@ -247,6 +247,27 @@ def v_unknown_element(items):
     return list(items) + [('A', rec)]
 
 
+def v_unknown_element_in_ring(items):
+    """An atom of an element the valence table lacks, placed at the centroid
+    of an aromatic ring (six bonded neighbours by the distance rule), plus the
+    isolated one of v_unknown_element: the two extremes of bond count."""
+    rings = {'PHE': ('CG', 'CD1', 'CD2', 'CE1', 'CE2', 'CZ'),
+             'TYR': ('CG', 'CD1', 'CD2', 'CE1', 'CE2', 'CZ'),
+             'HIS': ('CG', 'ND1', 'CD2', 'CE1', 'NE2'),
+             'TRP': ('CD2', 'CE2', 'CE3', 'CZ2', 'CZ3', 'CH2')}
+    for key, idx in P.residues(items):
+        if key[3] in rings:
+            ring_names = rings[key[3]]
+            names = {items[i][1].name.strip(): items[i][1] for i in idx}
+            if all(n in names for n in ring_names):
+                pts = [names[n].xyz for n in ring_names]
+                c = tuple(sum(p[k] for p in pts) / float(len(pts)) for k in range(3))
+                a = names[ring_names[0]]
+                rec = _hetero(a, ' D2 ', 'UNL', a.chain, 902, c, 'D')
+                return list(items) + [('A', rec)]
+    return None
+
+
 def v_ion_near_acid(items):
     for kind, it in items:
         if kind == 'A' and it.resname in ('ASP', 'GLU') and it.name.strip() in ('OD1', 'OE1'):
@@ -377,6 +398,7 @@ def _family(fam, base, inputs, nvar, salt):
         ('neg', lambda: v_negative_numbers(base)),
         ('blank', lambda: v_blank_chain(base)),
         ('h36', lambda: list(base)),
+        ('unkc', lambda: v_unknown_element_in_ring(base)),
     ]
     for j in range(nvar):
         tag, fn = makers[(salt + j * 3) % len(makers)]
